@@ -148,6 +148,12 @@ func (p *regExpParser) scanBracket() {
 			p.read()
 			p.scanEscape(true)
 			continue
+		} else if p.chr == '[' && p.offset < p.length && p.str[p.offset] == ':' {
+			// [: inside a class would start a POSIX class ([:alpha:]) in re2,
+			// in JavaScript it is just the characters [ and :
+			if err := p.goRegexp.WriteByte('\\'); err != nil {
+				p.errors = append(p.errors, err)
+			}
 		}
 		p.pass()
 	}
